@@ -132,6 +132,31 @@ func setAlgCase[T comparable](s *SetSys[T], pa, pb []Op, same bool, opn string, 
 	if r.obj == a.a.obj || r.obj == b.a.obj {
 		return viol(p, "invariant", "%s returned one of its operands instead of a new set", desc)
 	}
+	// the result as a start state: every operation of the alphabet on a freshly computed result,
+	// under the set family's own oracle (membership, size, order, iteration, representatives)
+	{
+		mkRes := func() *setBox[T] {
+			a2, b2 := mk()
+			r2 := applySetAlg(a2.a, b2.a, opn)
+			rb := &setBox[T]{sys: s, a: r2, next: a2.next + b2.next + 1000}
+			for _, x := range r2.values() {
+				rb.refAdd(x)
+			}
+			return rb
+		}
+		for _, o := range mkRes().Ops() {
+			rb := mkRes()
+			d := rb.Describe(o)
+			v := safeStep(rb, o, nil)
+			if v == nil {
+				v = safeCheck(rb.CheckState, nil, "state observers of the result")
+			}
+			st.Nested["result_followup_transitions"]++
+			if v != nil {
+				return &Viol{Props: p, Class: v.Class, Msg: fmt.Sprintf("%s, then %s on the result: %s", desc, d, v.Msg)}
+			}
+		}
+	}
 	// independence: every single mutation of one of the three leaves the other two as they were
 	type mut struct {
 		name string
@@ -375,6 +400,22 @@ func setAlgBig(j Job, r *JobResult, kind string, maxA int) {
 							}
 							if Canon(CanonOpts{}, x.obj) != kx || Canon(CanonOpts{}, y.obj) != ky {
 								return viol(tag("C13", "C18"), "invariant", "%s: %s on {0..%d} / %v changed an operand", kind, opn, na-1, bvals)
+							}
+							// the result is a working set: one Add and one Remove on it
+							{
+								exp := append([]int{}, want...)
+								res.add(777)
+								exp = append(exp, 777)
+								if len(want) > 0 {
+									res.remove(want[len(want)/2])
+									exp = append(append([]int{}, exp[:len(want)/2]...), exp[len(want)/2+1:]...)
+								}
+								if g := res.values(); !sameAsSet(sys, g, exp) || res.size() != len(exp) || !res.contains(777) {
+									return viol(p, "mismatch", "%s: {0..%d}%s / %v%s, %s (receiver first=%v), then Add(777) and one Remove on the result: %v (Size %d), want %v", kind, na-1, formName(forms&1), bvals, formName(forms>>1), opn, order == 0, g, res.size(), exp)
+								}
+								if Canon(CanonOpts{}, x.obj) != kx || Canon(CanonOpts{}, y.obj) != ky {
+									return viol(p, "invariant", "%s: mutating the result of %s on {0..%d} / %v changed an operand", kind, opn, na-1, bvals)
+								}
 							}
 							if sh := append(SharedMemory(res.obj, x.obj), SharedMemory(res.obj, y.obj)...); len(sh) > 0 {
 								// behavioural confirmation: mutate the result, operands must not move
